@@ -245,6 +245,116 @@ def reference_run(prog, input_path):
         sys.argv = argv
 
 
+class Replayer:
+    """Re-simulation of rows in a PRISTINE process.  The child that executes a simulated run has, by the time its rows are
+    re-simulated, run every iteration of the Monte-Carlo job in its own address space: whatever the simulator modules memoise at
+    module or class level is filled, and a re-simulation in that process would be served the very values the iterations were
+    served (a memo keyed on too little reproduces its own mistakes).  So, before the run child executes anything, it forks this
+    helper from its still pristine state; every request is run in a further fork of the helper (re-simulations do not see each
+    other either) and the report text comes back over a pipe."""
+
+    def __init__(self, tmpdir):
+        import struct
+        self._struct = struct
+        r1, w1 = os.pipe()
+        r2, w2 = os.pipe()
+        sys.stdout.flush()
+        sys.stderr.flush()
+        pid = K._real['os.fork']()
+        if pid == 0:
+            try:
+                os.close(w1)
+                os.close(r2)
+                self._serve(r1, w2, tmpdir)
+            except BaseException:  # noqa: BLE001
+                pass
+            finally:
+                K._real['os._exit'](0)
+        os.close(r1)
+        os.close(w2)
+        self.pid, self.w, self.r = pid, w1, r2
+        self.n = 0
+
+    @staticmethod
+    def _read_exact(fd, n):
+        buf = b''
+        while len(buf) < n:
+            chunk = os.read(fd, n - len(buf))
+            if not chunk:
+                raise EOFError('replayer pipe closed')
+            buf += chunk
+        return buf
+
+    @staticmethod
+    def _write_all(fd, data):
+        view = memoryview(data)
+        while view:
+            n = os.write(fd, view)
+            view = view[n:]
+
+    def _serve(self, r, w, tmpdir):
+        import signal
+        st = self._struct
+        while True:
+            try:
+                n = st.unpack('<I', self._read_exact(r, 4))[0]
+            except EOFError:
+                return
+            prog, path = json.loads(self._read_exact(r, n))
+            rr, ww = os.pipe()
+            gp = K._real['os.fork']()
+            if gp == 0:
+                try:
+                    os.close(rr)
+                    signal.alarm(240)
+                    tempfile.tempdir = tmpdir
+                    try:
+                        out = ['ok', reference_run(prog, path)]
+                    except BaseException as e:  # noqa: BLE001
+                        out = ['raised', f'{type(e).__name__}: {str(e)[:120]}']
+                    self._write_all(ww, json.dumps(out).encode())
+                except BaseException:  # noqa: BLE001
+                    pass
+                finally:
+                    K._real['os._exit'](0)
+            os.close(ww)
+            chunks = []
+            while True:
+                c_ = os.read(rr, 1 << 16)
+                if not c_:
+                    break
+                chunks.append(c_)
+            os.close(rr)
+            os.waitpid(gp, 0)
+            data = b''.join(chunks) or json.dumps(['raised', 'HarnessError: the re-simulation process ended without an answer']).encode()
+            self._write_all(w, st.pack('<I', len(data)) + data)
+
+    def run(self, prog, path):
+        st = self._struct
+        req = json.dumps([prog, path]).encode()
+        self._write_all(self.w, st.pack('<I', len(req)) + req)
+        n = st.unpack('<I', self._read_exact(self.r, 4))[0]
+        kind, val = json.loads(self._read_exact(self.r, n))
+        self.n += 1
+        if kind != 'ok':
+            raise RuntimeError(val)
+        return val
+
+    def close(self):
+        for fd in (self.w, self.r):
+            try:
+                os.close(fd)
+            except OSError:
+                pass
+        try:
+            os.waitpid(self.pid, 0)
+        except OSError:
+            pass
+
+
+_REPLAYER = None
+
+
 # --------------------------------------------------------------------------------------
 # configuration (all of it drawn from the ChoiceSource; index 0 is always the simplest)
 # --------------------------------------------------------------------------------------
@@ -311,7 +421,14 @@ def gen_config(cs, tier='quick', force=None):
         # (an extra input is kept only if its arguments do not depend on the base input, which this scenario replaces)
         inputs = [dict(WL.HIP_9999_INPUT)] + [i_ for i_ in inputs if i_['name'] == 'Reservoir Area' and not i_['edge']
                                                 and i_.get('hash_arg') is None][:1]
-    if c['program'] == 'geo' and not force.get('inputs') and force.get('base') is None and cs.choose(4, 'special_geo') == 3:
+    sg_ = cs.choose(5, 'special_geo') if c['program'] == 'geo' and not force.get('inputs') and force.get('base') is None else 0
+    if sg_ == 4:
+        # multiple parallel fractures with only the fracture separation sampled (see workloads.GEO_MPF_EXTRA)
+        c['special'] = 'mpf'
+        c['base'] = 1
+        outs = WL.GEO_MPF_OUTPUTS
+        inputs = [dict(WL.GEO_MPF_INPUTS[cs.choose(len(WL.GEO_MPF_INPUTS), 'mpf_in')])]
+    if sg_ == 3:
         # the report of the simulator changes its LAYOUT between the iterations of one run: a sampled input straddles the
         # point where a line of the report is left out (no pumping needed -> no 'Initial pumping power/net installed
         # power' line; conversion efficiency not positive -> no 'Heat to Power Conversion Efficiency' line), so every
@@ -325,7 +442,9 @@ def gen_config(cs, tier='quick', force=None):
     c['inputs'] = inputs
     nout = 1 + cs.choose(5, 'nout')
     on = list(outs)
-    c['outputs'] = [on.pop(cs.choose(len(on), 'out')) for _ in range(nout)]
+    if c['special'] == 'mpf':
+        nout = max(nout, 2)
+    c['outputs'] = [on.pop(cs.choose(len(on), 'out')) for _ in range(min(nout, len(on)))]
     if c['special'] == 'layout_shift':
         keep = c['outputs'][:2]
         must = [o for o in WL.GEO_LAYOUT_OUTPUTS[inputs[0]['name']] if o not in keep]
@@ -341,6 +460,18 @@ def gen_config(cs, tier='quick', force=None):
         c['outputs'].insert(cs.choose(len(c['outputs']), 'absent_pos'), c['absent_output'])
     if c['special'] == 'hip_huge':
         c['outputs'] = list(WL.HIP_HUGE_OUTPUTS) if cs.choose(2, 'horder') == 0 else list(reversed(WL.HIP_HUGE_OUTPUTS))
+    # an OUTPUT that the program prints as a number in some iterations and as the text 'N/A' in others
+    c['na_output'] = None
+    if c['program'] == 'toy' and cs.choose(3, 'na_output') == 2:
+        c['na_output'] = WL.TOY_NA_OUTPUT
+        c['outputs'].insert(cs.choose(len(c['outputs']) + 1, 'na_pos'), c['na_output'])
+    # the base input states a sampled parameter TWICE (what a base file assembled from a template plus overrides looks like); the
+    # simulators keep the last entry of a name
+    c['dup_param'] = None
+    if c['program'] in ('hip', 'geo', 'toy') and c['special'] in (None, 'mpf') and cs.choose(6, 'dup_param') == 5:
+        cand_ = [i_['name'] for i_ in inputs if _base_value(base_text(c), i_['name']) is not None]
+        if cand_ and not any(i_.get('hash_arg') is not None for i_ in inputs):
+            c['dup_param'] = cand_[cs.choose(len(cand_), 'dup_which')]
     it = ITER_TABLE_HIP if hip else ITER_TABLE_GEO
     if tier == 'thorough':
         it = it + ([64, 100, 200] if hip else [12, 16])
@@ -510,7 +641,23 @@ def _other_settings(c):
     return dict(c, inputs=ins, iterations=max(c['iterations'], 8))
 
 
-def _ok_keys(notes, nin_):
+def iter_key(b, in_names):
+    """'name:value;...' of the values an iteration's private input file gives to the sampled parameters.  The simulators keep the
+    LAST entry of a name, so that is the value the iteration was simulated with - whether the driver appends its draws to a copy of
+    the base input or rewrites lines in place.  (Falls back to the last lines of what was written when a name is not there.)"""
+    lines_ = [x for x in b.decode('utf-8', 'replace').split('\n') if x.strip()]
+    eff = {}
+    for x in lines_:
+        if x.lstrip().startswith('#') or ',' not in x:
+            continue
+        n_, _, rest = x.partition(',')
+        eff[n_.strip()] = rest.split(',')[0].split('--')[0].strip()
+    if in_names and all(n_ in eff for n_ in in_names):
+        return ''.join(f'{n_}:{eff[n_]};' for n_ in in_names)
+    return ''.join(x.replace(', ', ':') + ';' for x in lines_[-len(in_names):])
+
+
+def _ok_keys(notes, in_names):
     """sampled-value keys of the successfully simulated iterations in `notes` (same reconstruction as analyse)"""
     by_file, last, out = {}, {}, collections.Counter()
     for kind, n in notes:
@@ -528,8 +675,7 @@ def _ok_keys(notes, nin_):
                 it['sim'] = bool(n['ok'])
     for it in by_file.values():
         if it['sim']:
-            lines_ = [x for x in it['entries'].decode('utf-8', 'replace').split('\n') if x.strip()]
-            out[''.join(x.replace(', ', ':') + ';' for x in lines_[-nin_:])] += 1
+            out[iter_key(it['entries'], in_names)] += 1
     return out
 
 
@@ -545,8 +691,22 @@ def _other_base_text(c):
 
 
 def base_text(c):
+    t = _base_text0(c)
+    dp = c.get('dup_param')
+    if dp:
+        for ln in t.split('\n'):
+            parts = ln.split(',')
+            if len(parts) >= 2 and parts[0].strip() == dp:
+                # (the same value once more, in front: the entry further down is the one that counts)
+                return f'{dp}, {parts[1].strip()}\n' + t
+    return t
+
+
+def _base_text0(c):
     if c.get('special') == 'exclusion_rule':
         return WL.HIP_9999_BASE
+    if c.get('special') == 'mpf':
+        return WL.GEO_BASE_2 + WL.GEO_MPF_EXTRA
     if c['program'] == 'hip':
         return [WL.HIP_BASE, WL.HIP_BASE_2][c['base']]
     if c['program'] == 'hipold':
@@ -570,8 +730,11 @@ def run_one(payload):
     c = gen_config(cs, tier, payload.get('force'))
     sandbox = K.make_sandbox('mc', seed)
     rec = {'seed': seed, 'engine': 'mcsim', 'config': c}
+    global _REPLAYER
     try:
         os.makedirs(os.path.join(sandbox, 'tmp'))
+        os.makedirs(os.path.join(sandbox, 'tmp-replay'))
+        _REPLAYER = Replayer(os.path.join(sandbox, 'tmp-replay')) if not payload.get('replay_in_process') else None
         work = os.path.join(sandbox, 'work')
         os.makedirs(work)
         os.makedirs(os.path.join(work, 'pre'))
@@ -813,6 +976,9 @@ def run_one(payload):
         return rec
     finally:
         tempfile.tempdir = None
+        if _REPLAYER is not None:
+            _REPLAYER.close()
+            _REPLAYER = None
         shutil.rmtree(sandbox, ignore_errors=True)
 
 
@@ -1066,13 +1232,8 @@ def analyse(rec, c, k, out_path, inp_path, payload, driver=None):
     # --- C13: row count ---------------------------------------------------------------
     nin_ = len(c['inputs'])
 
-    def _key(b):
-        # the sampled entries are the last lines written to the iteration's private input file (the driver may append
-        # them to a copy of the base input or rewrite the whole file)
-        lines_ = [x for x in b.decode('utf-8', 'replace').split('\n') if x.strip()]
-        return ''.join(x.replace(', ', ':') + ';' for x in lines_[-nin_:])
     for it in iters:
-        it['key'] = _key(it['entries'])
+        it['key'] = iter_key(it['entries'], in_names)
     row_keys = collections.Counter(';'.join(f'{n}:{v}' for n, v in pairs) + ';' for _, _, pairs, _ in rows)
     wrote = collections.Counter()           # task -> newline-terminated lines it put into the result file itself
     worker_writes = False
@@ -1086,7 +1247,7 @@ def analyse(rec, c, k, out_path, inp_path, payload, driver=None):
     # it is a sample of the distributions requested NOW, which the support and distribution checks below decide
     carried = 0
     if c.get('crash_restart') and marks['notes']:
-        pre_ok = _ok_keys(k.notes[:marks['notes']], nin_)
+        pre_ok = _ok_keys(k.notes[:marks['notes']], in_names)
         own_ok = collections.Counter(it['key'] for it in ok_iters)
         for key_, n_ in row_keys.items():
             more = n_ - own_ok.get(key_, 0)
@@ -1098,6 +1259,17 @@ def analyse(rec, c, k, out_path, inp_path, payload, driver=None):
             rec['probes'] = dict(k.probes)
     good_rows -= carried
     check_iteration_count(carried)
+    if strict and not carried and good_rows == len(successes) and not pr['malformed'] and ok_iters \
+            and all(it['entries'] for it in ok_iters) and all([p_[0] for p_ in r[2]] == in_names for r in rows):
+        # every row records the draws its iteration was SIMULATED with: the values the iteration's private input file gives to
+        # the sampled parameters (last entry of a name) are the recorded ones
+        odd = row_keys - collections.Counter(it['key'] for it in ok_iters)
+        if odd:
+            ex_ = sorted(odd)[0]
+            sim_ = sorted(collections.Counter(it['key'] for it in ok_iters) - row_keys)[:1]
+            V('C13', 'missing_sample', 'recorded_draw_is_not_what_was_simulated',
+              f'{sum(odd.values())} row(s) record sampled values that no successfully simulated iteration was run with, e.g. row {ex_!r}; '
+              f'simulated without a matching row: {sim_}')
     if good_rows > len(successes):
         V('C13', 'extra_row', 'count', f'{good_rows} rows for {len(successes)} successfully simulated iterations')
     elif good_rows < len(successes):
@@ -1223,7 +1395,7 @@ def analyse(rec, c, k, out_path, inp_path, payload, driver=None):
         try:
             old_tmp = tempfile.tempdir
             tempfile.tempdir = os.path.join(k.sandbox, 'tmp')
-            report = reference_run(c['program'], rp)
+            report = _REPLAYER.run(c['program'], rp) if _REPLAYER is not None else reference_run(c['program'], rp)
         except Exception as e:  # noqa: BLE001
             V('C14', 'row_not_reproducible', 'reference_failed', f'line {lineno}: re-simulation raised {type(e).__name__}: {str(e)[:120]}')
             continue
@@ -1363,10 +1535,12 @@ def _check_stats(rec, c, pr, out_path, V):
             try:
                 cols.append([float(r[1][j]) for r in rows])
             except ValueError:
-                cols = []
-                break
+                # a cell that is not a number ('N/A'): nothing is demanded of what the summary says about THIS output (or of
+                # whether the driver refuses to summarise at all), the other outputs are still summarised over all rows
+                cols.append(None)
+                rec['outputs_with_non_numeric_cells'] = rec.get('outputs_with_non_numeric_cells', 0) + 1
     # an OUTPUT whose column holds no value at all may be summarised (as nan) or left out of the summary: both describe the rows
-    optional = {o for j, o in enumerate(outputs) if cols and all(x != x for x in cols[j])}
+    optional = {o for j, o in enumerate(outputs) if cols and (cols[j] is None or all(x != x for x in cols[j]))}
     need = [o for o in outputs if o not in optional]
     have = [o for o in js.keys() if o not in optional]
     if have != need and set(have) != set(need) or any(o not in outputs for o in js.keys()):
@@ -1374,7 +1548,7 @@ def _check_stats(rec, c, pr, out_path, V):
     if not cols:
         return
     for j, o in enumerate(outputs):
-        if o in optional and o not in js and o not in pr['stats']:
+        if cols[j] is None or (o in optional and o not in js and o not in pr['stats']):
             continue
         has_nan = any(x != x for x in cols[j])
         xs = sorted(x for x in cols[j] if x == x)       # the summary's statistics ignore missing values ('nan')...
